@@ -147,7 +147,7 @@ static void part_script() { // script=0.0.1.1...: thread ids, one per model step
     Fate f = forked([&] { sc.prepare(); std::vector<std::string> refs(sc.nthreads), outs(sc.nthreads); for (int t = 0; t < sc.nthreads; t++) refs[t] = sc.work(t);
         std::vector<std::function<void()>> bodies; for (int t = 0; t < sc.nthreads; t++) bodies.push_back([&, t] { outs[t] = sc.work(t); });
         sched::Trace tr = sched::run(bodies, {}, true, &script, &relevant_points());
-        std::string verdict = tr.diverged ? "DIVERGED" : tr.deadlock ? "deadlock" : !tr.monitor.empty() ? tr.monitor : ""; if (verdict.empty()) for (int t = 0; t < sc.nthreads; t++) if (outs[t] != refs[t]) verdict = fmt("thread %d output differs", t);
+        std::string verdict = !tr.monitor.empty() ? tr.monitor : tr.diverged ? "DIVERGED" : tr.deadlock ? "deadlock" : "";   // a counterexample trail ends in the violating state: the monitor fires there, the rest of the run is unscripted if (verdict.empty()) for (int t = 0; t < sc.nthreads; t++) if (outs[t] != refs[t]) verdict = fmt("thread %d output differs", t);
         std::string ev; for (auto &p : tr.points) ev += fmt("%d:%s,", p.chosen, p.label.c_str()); blob(ev + "|" + verdict); }, 60);
     std::string b = f.died() ? std::string("|died: ") + fate_str(f) : S().blob; size_t bar = b.rfind('|');
     info("steps", b.substr(0, bar)); info("verdict", b.substr(bar + 1)); eval(1); nontrivial(2); outcome(fnv(b.data(), b.size())); outcome(2);
